@@ -139,7 +139,11 @@ class PITFrozenDilationMasker(PITDilationMasker):
             rf,
             trainable=False,
         )
-        self.gamma.requires_grad = False
+        # a frozen mask is a constant, not a parameter: DNAS.train_* write requires_grad on every
+        # element of nas_parameters() without going through the `trainable` setter below
+        gamma = self.gamma.detach()
+        del self.gamma
+        self.register_buffer('gamma', gamma)
 
     @property
     def trainable(self) -> bool:
